@@ -51,6 +51,12 @@ type Finding struct {
 	What       string `json:"what"`
 	Residual   string `json:"residual,omitempty"` // spec expression: the failing cases excused by this finding
 	Line       string `json:"line,omitempty"`
+	// Observed: a defect of the unchanged tree that was demonstrated against the real code (demo under
+	// hunted/) but that no obligation of this property's check decides (it lies in an assumed contract
+	// of a dependency, or needs an ordering the monitor model does not explore). It is listed so that it
+	// is known, it suppresses nothing, and it is identified by ID (input / call site in What).
+	Observed string `json:"observed,omitempty"`
+	Demo     string `json:"demo,omitempty"`
 }
 
 type FindingsFile struct {
@@ -639,6 +645,12 @@ func cmdCheck(args []string) int {
 		}
 		fmt.Printf("VIOLATION property=%s replay=%s obligation=%s solver=%s answer=%s%s\n", *prop, path, n, r.Solver, r.Status, suffix)
 		fmt.Printf("  goal: %s\n  at: %s\n", ob.Goal, relPos(ob.Pos.String(), *repo))
+	}
+	for i := range ff.Findings {
+		f := &ff.Findings[i]
+		if f.Property == *prop && f.Status == "finding" && f.Observed != "" {
+			knownLines = append(knownLines, fmt.Sprintf("KNOWN-FINDING: property=%s observed[%s] %s (demo: %s)", *prop, f.Observed, f.What, f.Demo))
+		}
 	}
 	// a listed finding whose obligation no longer exists is a stale list entry, not an error
 	for _, l := range knownLines {
